@@ -1,9 +1,15 @@
 #!/usr/bin/env python3
-"""Regenerates /verif/MANIFEST.json from tools/claims.json (one entry per claimed property) —
+"""Regenerates /verif/MANIFEST.json from tools/claims/Cxx.json (one file per claimed property) —
 keeps the manifest schema-valid while properties are added."""
 import json, os
 ROOT = os.path.dirname(os.path.dirname(os.path.abspath(__file__)))
-claims = json.load(open(os.path.join(ROOT, 'tools', 'claims.json')))
+claims = {}
+cdir = os.path.join(ROOT, 'tools', 'claims')
+for fn in sorted(os.listdir(cdir)):
+    if fn.endswith('.json'):
+        claims[fn[:-5]] = json.load(open(os.path.join(cdir, fn)))
+hooks_file = os.path.join(ROOT, 'tools', 'hook_commits.json')
+claims['_hook_commits'] = json.load(open(hooks_file)) if os.path.exists(hooks_file) else []
 props = [json.loads(l) for l in open(os.path.join(ROOT, 'properties.jsonl'))]
 checks, na = [], []
 for p in props:
